@@ -34,9 +34,15 @@ VARIABLES stream, pos,                 \* the chosen byte string and how much of
 vars == <<stream, pos, buf, width, height, bpp, palSize, palette, pixels, frames, err>>
 
 MemByte(k) == IF k + 1 <= Len(MemBytes) THEN MemBytes[k + 1] ELSE 0
+WW == 8 * AB    \* the memory width w
+FAR == 1000000  \* stands for any address at or above 2^16 (nothing is stored there in the model)
 U16(p, o) == p[o] + 256 * p[o + 1]
-\* an address field (bit address of a dw-aligned op, below 2^16 in the model) -> op index
-AddrIdx(p, o) == (p[o] + 256 * p[o + 1]) \div DW
+\* an address field -> bit address (FAR if any byte above the second is non-zero)
+AddrOf(p, o) == IF \E i \in 2..(AB - 1) : p[o + i] # 0 THEN FAR ELSE p[o] + 256 * p[o + 1]
+\* the packed byte read at bit address a: bits #w..#w+7 of word (a div w) + 1.  The model's memory holds the
+\* packed byte MemByte(k) in the jump word (word 2k+1) of op k and zero flip words.
+PackedAt(a) == IF a >= FAR THEN 0
+               ELSE LET wi == (a \div WW) + 1 IN IF wi % 2 = 1 THEN MemByte((wi - 1) \div 2) ELSE 0
 Mask(v, bits) == IF bits = 4 THEN v % 16 ELSE v
 
 CmdLen(c) ==
@@ -67,24 +73,24 @@ ExecInit(p) ==
             /\ UNCHANGED <<frames, err>>
 
 ExecSetPalette(p) ==
-    LET a == AddrIdx(p, 1)
-    IN /\ palette' = [k \in 1..palSize |-> <<MemByte(a + 3 * (k - 1)), MemByte(a + 3 * (k - 1) + 1), MemByte(a + 3 * (k - 1) + 2)>>]
+    LET a == AddrOf(p, 1)
+    IN /\ palette' = [k \in 1..palSize |-> <<PackedAt(a + DW * (3 * (k - 1))), PackedAt(a + DW * (3 * (k - 1) + 1)), PackedAt(a + DW * (3 * (k - 1) + 2))>>]
        /\ UNCHANGED <<width, height, bpp, palSize, pixels, frames, err>>
 
 ExecUpdate(p) ==
     IF width = 0 \/ height = 0 THEN Fail
-    ELSE LET a == AddrIdx(p, 1)
-         IN /\ pixels' = [k \in 1..(width * height) |-> Mask(MemByte(a + k - 1), bpp)]
+    ELSE LET a == AddrOf(p, 1)
+         IN /\ pixels' = [k \in 1..(width * height) |-> Mask(PackedAt(a + DW * (k - 1)), bpp)]
             /\ frames' = frames + 1
             /\ UNCHANGED <<width, height, bpp, palSize, palette, err>>
 
 ExecRect(p) ==
-    LET x == U16(p, 1)  y == U16(p, 3)  rw == U16(p, 5)  rh == U16(p, 7)  a == AddrIdx(p, 9)
+    LET x == U16(p, 1)  y == U16(p, 3)  rw == U16(p, 5)  rh == U16(p, 7)  a == AddrOf(p, 9)
     IN IF width = 0 \/ height = 0 \/ x + rw > width \/ y + rh > height THEN Fail
        ELSE /\ pixels' = [k \in 1..(width * height) |->
                             LET px == (k - 1) % width  py == (k - 1) \div width
                             IN IF px >= x /\ px < x + rw /\ py >= y /\ py < y + rh
-                               THEN Mask(MemByte(a + k - 1), bpp) ELSE pixels[k]]
+                               THEN Mask(PackedAt(a + DW * (k - 1)), bpp) ELSE pixels[k]]
             /\ frames' = frames + 1
             /\ UNCHANGED <<width, height, bpp, palSize, palette, err>>
 
